@@ -35,6 +35,8 @@ InstLegal(i) == i \in Instances /\ i[1] # "device"
 
 \* ---- decoding: the command name the standard gives a frame -------------------
 Unnamed == "?"
+\* what the library may call a frame the tables have no name for: its generic / unknown command classes
+UnknownNames == {"Command", "102.UnknownGearCommand", "103.UnknownDeviceCommand", "103.UnknownEvent", "103.AmbiguousInstanceType"}
 
 RowsFor(tbl, pred(_)) == {i \in 1..Len(tbl) : pred(tbl[i])}
 
